@@ -31,6 +31,12 @@ NOTES = {
     'S09_n2': 'needs a 32-bit hash collision with a keyword (1 in 3e8 identifiers): no search finds it; caught by the new mechanism obligation on identifier() (the look-up key is the whole lexeme, the table is the spelling table) - reported as no-failing-input-found',
     'S10_n1': 'first run: missed by all 20 -> C12: every read, write, delete and listing also through one helper function per key (the same syntactic site before and after the object changes)',
     'S10_n2': 'first run: missed by C03 (mechanism trace of C06 broke) -> scopes with 15..70 names (top level, block, function, parameters), each assigned and read',
+    'T01_n1': 'first run: missed by C15 (a mechanism obligation of C17 broke) -> every kind of value, built-ins and user functions included, inside arrays, objects and nested containers',
+    'T03_n1': 'first run: missed by C02 (random programs of C03/C04 saw it) -> the result of + with a string operand used again: added to, compared, multiplied',
+    'T04_n2': 'first run: missed by C03 (C06 saw it) -> an unbound name as a bare expression statement at top level, in functions, blocks, after its scope ended',
+    'T05_n2': 'first run: missed by all 20 -> C20 line pool: braces inside strings and comments, unclosed blocks / literals / function bodies followed by further lines',
+    'T10_n1': 'first run: caught only by mechanism obligations (the trigger needs 600 000 loop iterations, beyond the model budget) -> C07 implementation-only probes: 1.5 million iterations with continue / break / calls in while and for loops, expected results computed by the harness',
+    'T10_n2': 'first run: caught only by a mechanism obligation -> C15: single lines around 4096 / 8192 / 65536 bytes that are much shorter in characters, alone and in containers',
     'R10_n2': 'first run: missed by all 20 -> C09 runs three 77 KB scripts of mostly three-byte characters (three alignments) through the real process',
 }
 
@@ -64,13 +70,16 @@ array/object built-ins, maths/input built-ins, main.go + utils.go), given all tw
 (refactorings, optimisations, "fixes") in their area that break some property.  Round 4 (%d changes, `Sxx_nk`): ten agents, one per
 theme (number <-> text conversions, Unicode, error signalling, scopes and closures, control flow, containers, command line and input,
 parser, lexer, performance-motivated caches and fast paths), given the twenty property texts and the summaries of all 110 earlier
-changes, asked for changes of a different kind that show only for rare inputs.  Each change was confirmed by `tools/seedtest.py` in a scratch worktree
+changes, asked for changes of a different kind that show only for rare inputs.  Round 5 (`Txx_nk`, 20 changes, counted with
+round 4 below): ten agents on interactions (functions as values in containers, numeric boundaries, strings, statement corners, REPL vs
+script, objects, error reporting, lexical corners, built-in edges, resource-shaped behaviour), told to avoid triggers that are
+astronomically unlikely.  Each change was confirmed by `tools/seedtest.py` in a scratch worktree
 (applies, builds, baseline suite unchanged, demonstration differs between clean and changed build) and then `./check <ID> --tier quick` was run with
 the checkout overridden to the changed tree; when the target check stayed silent all other checks were run.  Kept under `seeded/<name>/`
 (patch.diff, demonstration, meta.json).  After strengthening, every change is caught by the check of the property it was written against, with a
 concrete failing input, except R07_n3, which lies outside its property's domain, and S09_n2, which no search can trigger; both are
-caught by a mechanism obligation (reported as no-failing-input-found).  Of the 60 changes of rounds 3 and 4, 26 were missed by their
-target check on the first run and 12 by all twenty checks: every one led to a new generic input family or mechanism obligation.  The notes
+caught by a mechanism obligation (reported as no-failing-input-found).  Of the 80 changes of rounds 3 to 5, 32 were missed by their
+target check on the first run and 13 by all twenty checks: every one led to a new generic input family or mechanism obligation.  The notes
 say what the first run missed and what was added (the added streams are generic - families of inputs, not the seeded input itself).
 
 | change | what was changed | needs | caught by | first evidence |
